@@ -40,6 +40,8 @@ def check(c: Check):
     clause_e(c)
     clause_f(c)
     clause_g(c)
+    from .common import check_application_purity
+    check_application_purity(c, 'C06-h', ['exactly_lib.type_val_prims.matcher.matcher_base_class:MatcherWTrace', 'exactly_lib.type_val_prims.string_transformer:StringTransformer'], floor=25)
 
 
 def _const(v):
